@@ -314,7 +314,7 @@ type pendingUpload struct {
 	repo   string
 	pieces [][]byte
 	all    []byte
-	wrong  bool
+	wrong  int // 0: commit with the content's digest; k > 0: with wrongDigest(k-1, all)
 }
 
 type hgen struct {
@@ -328,6 +328,7 @@ type hgen struct {
 	mans     map[string][]memsim.ManRef // repo -> manifests
 	tagged   map[string][]string
 	pending  []*pendingUpload
+	queue    []memsim.Op // reads that follow a disagreeing push (disagree.go), issued soon after it
 	nWriters int
 	ops      []memsim.Op
 	ex       *memsim.Exec // scratch executor used to learn what succeeds
@@ -478,6 +479,12 @@ func (g *hgen) rangePair(n int64) (int64, int64) {
 
 // next chooses the next operation.
 func (g *hgen) next() memsim.Op {
+	// read what a disagreeing push declared (mostly at once, sometimes with other operations between)
+	if len(g.queue) > 0 && g.r.Intn(4) != 0 {
+		o := g.queue[0]
+		g.queue = g.queue[1:]
+		return o
+	}
 	// advance a pending chunked upload
 	if len(g.pending) > 0 && g.r.Intn(10) < 6 {
 		i := g.r.Intn(len(g.pending))
@@ -489,8 +496,13 @@ func (g *hgen) next() memsim.Op {
 		}
 		g.pending = append(g.pending[:i], g.pending[i+1:]...)
 		d := memsim.Sha(p.all)
-		if p.wrong {
-			d = memsim.Sha(append([]byte("x"), p.all...))
+		if p.wrong > 0 {
+			if wd, ok := wrongDigest(p.wrong-1, p.all); ok {
+				d = wd
+				g.queue = append(g.queue, blobFollowUps(g.r, p.repo, d, p.all)...)
+			} else {
+				p.wrong = 0
+			}
 		}
 		return memsim.Op{Kind: "WCommit", W: p.w, Digest: d}
 	}
@@ -600,6 +612,14 @@ func (g *hgen) next() memsim.Op {
 
 func (g *hgen) apply(o memsim.Op) { g.applyR(o) }
 
+// one upload in five is committed under a digest that is not its content's (disagree.go)
+func (g *hgen) wrongKind() int {
+	if g.r.Intn(5) != 0 {
+		return 0
+	}
+	return 1 + g.r.Intn(nWrongDigests)
+}
+
 func (g *hgen) applyR(o memsim.Op) memsim.Result {
 	g.ops = append(g.ops, o)
 	var r memsim.Result
@@ -634,7 +654,7 @@ func (g *hgen) applyR(o memsim.Op) memsim.Result {
 	case "PushBlobChunked":
 		if r.Kind == "writer" {
 			c := g.content()
-			g.pending = append(g.pending, &pendingUpload{w: r.W, repo: o.Repo, pieces: split(g.r, c), all: c, wrong: g.r.Intn(6) == 0})
+			g.pending = append(g.pending, &pendingUpload{w: r.W, repo: o.Repo, pieces: split(g.r, c), all: c, wrong: g.wrongKind()})
 		}
 	}
 	return r
@@ -664,7 +684,7 @@ func genHistory(r *rand.Rand, stack int, imm bool, big bool, length int) history
 	g := newHgen(r, stack, imm, big)
 	defer g.st.Close()
 	uploads := map[int]*pendingUpload{}
-	for len(g.ops) < length || (len(g.pending) > 0 && len(g.ops) < length+30) {
+	for len(g.ops) < length || ((len(g.pending) > 0 || len(g.queue) > 0) && len(g.ops) < length+30) {
 		o := g.next()
 		before := len(g.pending)
 		g.apply(o)
@@ -673,7 +693,7 @@ func genHistory(r *rand.Rand, stack int, imm bool, big bool, length int) history
 			uploads[p.w] = p
 		}
 		if o.Kind == "WCommit" {
-			if p := uploads[o.W]; p != nil && !p.wrong {
+			if p := uploads[o.W]; p != nil && p.wrong == 0 {
 				d := memsim.Sha(p.all)
 				g.blobs[p.repo] = append(g.blobs[p.repo], d)
 				g.data[d] = p.all
